@@ -18,4 +18,58 @@ theorem removeBrokenBasepairs_sscons' (m : Msa) (mask : List Bool) (ss : Bytes) 
     cases hq : rbbSeqs mask m.ss with
     | mk l e => cases e <;> rfl
 
+/-- the per-sequence loop, when it reports no error, rewrote every present SS line by
+    `esl_msa_RemoveBrokenBasepairsFromSS` and left the absent ones absent -/
+theorem rbbSeqs_getElem (mask : List Bool) : ∀ (l l' : List (Option Bytes)), rbbSeqs mask l = (l', none) →
+    ∀ i : Nat, (∀ s, l[i]? = some (some s) → ∃ s', removeBrokenFromSS s mask = .ok s' ∧ l'[i]? = some (some s')) ∧
+         (l[i]? = some none → l'[i]? = some none)
+  | [], l', h, i => by simp
+  | none :: rest, l', h, i => by
+    simp only [rbbSeqs] at h
+    cases hr : rbbSeqs mask rest with
+    | mk r e =>
+      rw [hr] at h
+      injection h with h1 h2
+      subst h1; subst h2
+      have ih := rbbSeqs_getElem mask rest r hr
+      cases i with
+      | zero => simp
+      | succ i => simpa using ih i
+  | some s0 :: rest, l', h, i => by
+    simp only [rbbSeqs] at h
+    split at h
+    · injection h with _ h2; cases h2
+    · rename_i s1 hs1
+      cases hr : rbbSeqs mask rest with
+      | mk r e =>
+        rw [hr] at h
+        injection h with h1 h2
+        subst h1; subst h2
+        have ih := rbbSeqs_getElem mask rest r hr
+        cases i with
+        | zero =>
+          refine ⟨fun s hs => ?_, fun hn => ?_⟩
+          · simp only [List.getElem?_cons_zero, Option.some.injEq] at hs
+            subst hs
+            exact ⟨s1, hs1, by simp⟩
+          · simp at hn
+        | succ i => simpa using ih i
+
+theorem removeBrokenBasepairs_ss' (m : Msa) (mask : List Bool) (hok : (removeBrokenBasepairs m mask).st = .ok) :
+    ∃ l', rbbSeqs mask m.ss = (l', none) ∧ (removeBrokenBasepairs m mask).msa.ss = l' := by
+  unfold removeBrokenBasepairs at hok ⊢
+  split at hok
+  · rename_i e he
+    simp only at hok
+    cases e <;> simp [St.ofWErr] at hok
+  · rename_i sc hsc
+    cases hr : rbbSeqs mask m.ss with
+    | mk l e =>
+      rw [hr] at hok
+      cases e with
+      | none => exact ⟨l, rfl, rfl⟩
+      | some e =>
+        simp only at hok
+        cases e <;> simp [St.ofWErr] at hok
+
 end EaselModel.Msa
